@@ -49,3 +49,26 @@ Theorem C04_iteration : forall d order gcds chunks bytes limit fuel,
     flat_map out_nums (snd r) = concat (map fst chunks) /\
     decode_file d bytes = Ok (flat_map out_nums (snd r)).
 Proof. exact iteration_spec. Qed.
+
+(* ---- one call of the body decoder as its sequence of BitReader / HuffmanTable calls on 64-bit
+   words (Model/RBody.v: decompress_unsigneds_limited_dirty, checked loop: search_with_reader,
+   read_varint, reps clamped to the batch, decompress_offsets with per-number save/restore of the
+   position, incomplete_prefix bookkeeping, rewind when nothing of a block was decoded) returns
+   exactly the batch of the bit-list model — same numbers, same carried-over run, same finished
+   flag, same status and error kind, same position — for every limit, position, amount of data
+   and carried-over state, and never panics ---- *)
+From QCo.Model Require Import Words Huff RFile RBody.
+From QCo.Lemmas Require Import WordsL HuffL NoPanicL RBodyL.
+
+Theorem C04_word_level_batch : forall w ps tbl ws tb i j n_left inc limit eoi,
+  bw_ok ws tb -> table_ok ps = true -> ps <> [] -> (max_code_len ps <= 40)%nat ->
+  hfrom w ps = Ok tbl -> Forall (body_prefix w) ps -> sane_inc w inc ->
+  j <= 64 -> 64 * i + j <= tb ->
+  let out := rb_batch w ws tb tbl n_left inc limit eoi (i, j) in
+  let m := read_batch w tb ps n_left inc limit eoi (rd_stream ws tb (64 * i + j)) in
+  rb_nums out = b_nums m /\ rb_incomplete out = b_incomplete m /\
+  rb_finished out = b_finished m /\ rb_status out = b_status m /\
+  b_rest m = rd_stream ws tb (64 * fst (rb_pos out) + snd (rb_pos out)) /\
+  rb_status out <> SPanic /\
+  snd (rb_pos out) <= 64 /\ 64 * fst (rb_pos out) + snd (rb_pos out) <= tb.
+Proof. exact rb_batch_eq. Qed.
